@@ -544,6 +544,65 @@ func c19Split(c *mc.Check, maxLen int) {
 	f.Done()
 }
 
+// ---- listings over many uploads: newest first, limited as requested ----
+
+func c19Ladders(c *mc.Check) {
+	f := c.Family("upload-ladders-x-limits", "N uploads on one database for every N in the bounds (so that the sequence number of the day passes 9→10 and, thorough, 99→100: the textual order of upload IDs then differs from their order of creation), drawn in rotation from three uploads (k=a,b; no k at all; k=zz) × queries {empty, k:a, k>a, j>\"\", by:user, upload>first, k:a by:user} × limits {none, 1, 2, 3, 5, N−1, N, N+1}: ListUploads (directly and through /uploads) lists exactly the uploads with matching records, newest first, cut to the limit, with the number of matching stored records; Query returns the matching records; non-trivial = a limit smaller than the number of matching uploads", c19Replay)
+	if c.Replaying() {
+		return
+	}
+	ns := mc.Pick(c, []int{3, 9, 10, 11, 12, 13}, []int{3, 9, 10, 11, 12, 13, 21, 99, 100, 101, 102})
+	f.Bounds["uploads"] = ns
+	rot := []int{0, 6, 2}
+	mc.ParRange(uint64(len(ns)), 1, c.TimeUp, func(w int, lo, hi uint64) {
+		l := f.Local()
+		for ni := lo; ni < hi; ni++ {
+			n := ns[ni]
+			var st c19State
+			for i := 0; i < n; i++ {
+				st = append(st, rot[(i+i/3)%3])
+			}
+			bs, m := buildState(st)
+			if m != "" {
+				c.Fail(f, "build", c19Case{State: st}, m)
+				continue
+			}
+			queries := [][]term{nil, {{"k", ":", "a"}}, {{"k", ">", "a"}}, {{"j", ">", ""}}, {{"by", ":", "user"}},
+				{{"upload", ">", bs.ids[0]}}, {{"k", ":", "a"}, {"by", ":", "user"}}}
+			for qi, ts := range queries {
+				for _, lim := range []int{-1, 1, 2, 3, 5, n - 1, n, n + 1} {
+					if lim == 0 {
+						continue
+					}
+					for _, via := range []bool{false, true} {
+						if via && ((qi+lim)%2 == 1 || len(ts) == 0) {
+							continue // half of the cases through the HTTP handlers (/search refuses an empty query by design)
+						}
+						var msg, sig string
+						if p := mc.Catch(func() { msg, sig = c19CheckQuery(bs, ts, lim, via) }); p != "" {
+							msg, sig = p, "panic"
+						}
+						l.Evals++
+						if lim > 0 && lim < n/3 {
+							l.Nontrivial++
+						}
+						if msg != "" {
+							l.Outcome("differs")
+							c.Fail(f, sig, c19Case{st, ts, lim}, msg)
+						} else {
+							l.Outcome(fmt.Sprintf("N=%d ok", n))
+						}
+					}
+				}
+			}
+			bs.v.Close()
+		}
+		l.Flush()
+	})
+	f.Sample(c19Case{c19State{0, 6, 2, 6, 2, 0, 2, 0, 6, 0, 6, 2}, []term{{"k", ":", "a"}}, 1})
+	f.Done()
+}
+
 func TestVerifC19(t *testing.T) {
 	c := mc.NewCheck("C19")
 	c.Assume("reference store and term semantics in the harness, written from the property; sqlite only")
@@ -551,6 +610,7 @@ func TestVerifC19(t *testing.T) {
 	if os.Getenv("VERIF_PART") == "" || os.Getenv("VERIF_PART") == "0" {
 		c19Space(c, mc.Pick(c, 2, 3), mc.Pick(c, 2, 3))
 		c19OneKey(c, mc.Pick(c, 5, 6))
+		c19Ladders(c)
 		c19Split(c, mc.Pick(c, 7, 8))
 	}
 	if code := c.Finish(); code != 0 {
